@@ -14,8 +14,7 @@ META = {
 MANIFEST_ENTRY = {
     "level_text": "Deductive proof, for all target weights, prior holdings, bases and cash fractions, of what StrategyBase.rebalance trades (call-log clauses on every exit of the real body) "
     "and, as lemmas over those clauses plus allocate's budget clauses, that the targeted child reaches (1-cash)*w exactly in the frictionless fractional case.",
-    "level_note": "Reals not floats; close/flatten/StrategyBase.allocate are used through frame contracts (their liquidation clauses are not proved yet); the two loops of algos.Rebalance "
-    "(closing non-targets, iterating targets with the captured base) and RebalanceOverTime are read but not yet under contract; the integer/cost case inherits C05's one-unit bound.",
+    "level_note": "Reals not floats; close is used through a frame contract (its liquidation clause is not proved; flatten's is, in C16); the integer/cost case inherits C05's one-unit bound; the end-to-end weight after costs and whole-unit rounding is exercised only by the bounded stand-in c06_rebalance.",
     "technique": "contract-based deductive verification: VCs from the real AST (pyvc) + z3; ghost call log; lemmas over contract clauses",
 }
 
